@@ -6,7 +6,7 @@ PROPS = {
     "C01": dict(
         rig="R", runs=dict(quick=2000, thorough=60000),
         nontrivial_probes=["equal_ts_group", "begin_ts_zero_pack", "tick_only_source_pack", "late_partition_message", "forwarded_pack"],
-        must_hit=["equal_ts_group", "begin_ts_zero_pack", "tick_only_source_pack", "late_partition_message", "filtered_both_sides_dropped"],
+        must_hit=["equal_ts_group", "begin_ts_zero_pack", "tick_only_source_pack", "late_partition_message", "filtered_both_sides_dropped", "foreign_stream_pack_fewer_source_channels"],
         rule="Seeded generator draws catalog (1-3 collections x 1-2 shards over 1-3 shared pchannels, partitions pre-existing/late/dropped), per-pchannel logs (insert/delete/equal-ts pairs/create*/drop*/unsupported/ticks/double ticks) and scheduler tape; every seam call, delivery, queue receive, operator call and clock advance is one scheduled action.",
         assumptions=[R_REAL, "SimMQ models MqTtMsgStream+msgdispatcher pack construction (BeginTs=0 on first pack, shared positions, DDL fan-out by collection id)", "completeness is judged after a fault-free drain of at least 60 simulated seconds of idleness"],
     ),
